@@ -45,6 +45,14 @@ def scanner_gir(seed, idx):
         header += '#define FOO_LIMIT 10\n#define FOO_NAME "name"\n#define FOO_RATIO 2.5\n#define FOO_FLAG TRUE\nvoid foo_free_standing (gint x);\nFooRec *foo_free_make (void);\n'
         targets = c03.targets_of(model, header)
         source, blocks = c03.gen_blocks(rng, targets, model)
+        # arrays with every combination of length, fixed-size and zero-terminated (parameters, return values, fields)
+        for i in range(rng.choice([1, 2, 3])):
+            opts = rng.sample(['length=n_used', 'fixed-size=%d' % rng.choice([1, 4, 16]), 'zero-terminated=%d' % rng.choice([0, 1, 1])], rng.choice([1, 2, 3]))
+            ropts = rng.choice(['fixed-size=%d' % rng.choice([2, 5]), 'zero-terminated=1', 'zero-terminated=1 fixed-size=3', 'length=n_used zero-terminated=1', 'zero-terminated=0'])
+            header += 'gint *foo_arrays%d (guint8 *data, gsize n_used, gchar **names);\n' % i
+            source += ('\n/**\n * foo_arrays%d:\n * @data: (array %s): bytes\n * @n_used: (%s): used\n * @names: (array %s) (nullable): names\n *\n'
+                       ' * Returns: (array %s) (transfer none): numbers\n */\n' % (
+                           i, ' '.join(opts), 'out' if 'length=n_used' in ropts and False else 'in', rng.choice(['zero-terminated=1', 'fixed-size=2', 'zero-terminated=1 fixed-size=3']), ropts))
         kind, lib = 'obj', apigen.library(headers=[('/src/foo.h', header)], sources=[('/src/foo.c', source)], dump=dump, shared_libraries=['libfoo.so.1'])
     else:
         l = c13.gen_library(seed, idx)
